@@ -83,7 +83,7 @@ func (c20Checker) Meta() CheckerMeta {
 		Rule: "each run = one seed: generated (names, sets, loader kind, phases with Debug settings, 1..4 tasks x 1..6 FromCache/CleanCache ops, " +
 			"environment events changing/corrupting/deleting files, loader fault plan) executed under one seeded interleaving; " +
 			"a run is non-trivial if it had >=1 pre-emption, lock block, environment event or fired fault; distinct = distinct hash of (workload, (task,site) interleaving, fired faults)",
-		Real: []string{"pongo2 package (TemplateSet.FromCache/CleanCache/FromFile, lexer, parser, include tag)", "pongo2.FSLoader", "pongo2.HttpFilesystemLoader", "sync.Mutex", "io.ReadAll", "porcupine checker"},
+		Real: []string{"pongo2 package (TemplateSet.FromCache/CleanCache/FromFile, lexer, parser, include tag)", "pongo2.FSLoader", "pongo2.HttpFilesystemLoader", "pongo2.LocalFilesystemLoader (real files in a temp directory mirroring the simulated disk)", "extends tag", "sync.Mutex", "io.ReadAll", "porcupine checker"},
 		Stub: []string{"fs.FS / http.FileSystem contents (versioned in-memory disk)", "virtual TemplateLoader", "goroutine scheduling choices (seeded cooperative scheduler)"},
 		Assumptions: []string{
 			"loader Abs is idempotent (the engine resolves a cached name twice)",
